@@ -142,6 +142,37 @@ func corpus() []core.Case {
 		}
 		cs = append(cs, mixCase("corpus-bytes", ops...))
 	}
+	// small-scope exhaustive: every string of length 1..4 over an alphabet that contains the
+	// prefix letters, digits at the class boundaries, underscore and signs, under base 0
+	// (prefix / underscore grammar), and of length 1..3 under bases 2, 8, 10, 16
+	{
+		const alpha = "01789afxXob_B+"
+		var ops []string
+		var rec func(cur []byte, maxLen int, f func(string))
+		rec = func(cur []byte, maxLen int, f func(string)) {
+			if len(cur) > 0 {
+				f(string(cur))
+			}
+			if len(cur) == maxLen {
+				return
+			}
+			for i := 0; i < len(alpha); i++ {
+				rec(append(cur, alpha[i]), maxLen, f)
+			}
+		}
+		rec(nil, 4, func(s string) { ops = append(ops, puLine(s, 0, 64)) })
+		rec(nil, 3, func(s string) {
+			ops = append(ops, puLine(s, 0, 8), puLine(s, 2, 8), puLine(s, 8, 8), puLine(s, 10, 8), puLine(s, 16, 8))
+		})
+		const chunk = 4000
+		for i := 0; i < len(ops); i += chunk {
+			j := i + chunk
+			if j > len(ops) {
+				j = len(ops)
+			}
+			cs = append(cs, mixCase("corpus-smallscope", ops[i:j]...))
+		}
+	}
 	// hex: an invalid character at every position of strings of length 0..9
 	{
 		var ops []string
@@ -294,7 +325,7 @@ func genNumeral(r *core.Rand) (string, int, int) {
 		vb = 64
 	}
 	var digits string
-	switch r.Pick(40, 25, 20, 15) {
+	switch r.Pick(28, 34, 30, 8) {
 	case 0: // a boundary value, possibly nudged
 		vs := boundaryValues(eb, vb)
 		v := new(big.Int).Set(vs[r.Intn(len(vs))])
@@ -306,7 +337,7 @@ func genNumeral(r *core.Rand) (string, int, int) {
 		}
 		digits = v.Text(eb)
 	case 1: // random value below 2^k
-		k := r.Range(0, 70)
+		k := r.Range(0, vb+2) // up to a little above the bit size
 		v := new(big.Int).SetUint64(r.Uint64())
 		v.Lsh(v, 8)
 		v.Add(v, big.NewInt(int64(r.Intn(256))))
@@ -314,8 +345,10 @@ func genNumeral(r *core.Rand) (string, int, int) {
 		digits = v.Text(eb)
 	case 2: // random digit string (length around the maximal width)
 		n := r.Range(1, 70)
-		if r.Chance(70) {
-			n = r.Range(1, 22)
+		if r.Chance(85) {
+			// around the number of digits maxVal has in this base
+			w := len(new(big.Int).Sub(new(big.Int).Lsh(big.NewInt(1), uint(vb)), big.NewInt(1)).Text(eb))
+			n = r.Range(1, w+1)
 		}
 		b := make([]byte, n)
 		for i := range b {
